@@ -474,7 +474,12 @@ def parallels_chain(chk: Check):
     car = loop_carried(chk, octx, l)
     sn, si = carried_with_entry(chk, car, S.C(None))
     if si is None:
-        chk.violated("K-PROV", "parallels:parent-is-previous-stream", l, "no stream variable is carried from one layer to the next")
+        leaked = [n for n, i in car.items() if i["phi"][0] == "phi" and any(a[0] == "call" and (a[1].endswith("::HDS") or a[1].endswith("_open_image"))
+                                                                         for _, nx in i["next"] for a in S.alternatives(nx))]
+        chk.violated("K-PROV", "parallels:parent-is-previous-stream", l,
+                     "the layer stack of a storage does not start empty: the stream variable is not reset to None per storage, so the base image of a "
+                     "later storage gets the previous storage's stream as its parent" if leaked else
+                     "no stream variable is carried from one layer to the next")
         return
     STREAM = si["phi"]
     hds = [n for n in ast.walk(l) if isinstance(n, ast.Call) and R.expr(octx, n)[0] == "call" and R.expr(octx, n)[1].endswith("::HDS")]
